@@ -701,3 +701,59 @@ def _takes_handle(prog, f):
                 if kind(a) == "var" and a[2] == "p" and a[1] in ints:
                     return True
     return False
+
+
+def rule_close_version_guard(ctx):
+    """CLOSEVER (C14): the first access to a file notes (version.modified) that the version element should be brought up to
+    date; that also happens on a file opened for reading.  The routines that act on the note at close/sync time write an element,
+    so the note may only be acted on when the file was opened for writing: every call of HIupdate_version is control-dependent
+    on a test of `access & DFACC_WRITE`.  Otherwise closing a read-only file that lacks a version element fails and the file
+    stays open."""
+    from .codec import ast_walk, ast_exprs
+    from .facts import walk, calls_in, render
+    prog = ctx.prog
+    n = 0
+    for f in prog.lib_funcs():
+        if not any(c[1] == "HIupdate_version" for _b, _i, _s, c in f.calls()):
+            continue
+        sites = []
+
+        def vis(nn, st):
+            exprs = [nn[1]] if nn[0] in ("s", "if", "while") else []
+            for e in exprs:
+                for c in calls_in(e, True):
+                    if c[1] == "HIupdate_version":
+                        guards = [a for a in st if a[0] == "if"] + ([nn] if nn[0] == "if" and nn[1] is not e else [])
+                        sites.append((c, [a[1] for a in st if a[0] == "if"]))
+            return True
+        ast_walk(f.raw.get("ast"), vis)
+        for c, conds in sites:
+            n += 1
+            key = "CLOSEVER:%s" % f.name
+            ok = any(any(y[0] == "mem" and y[2] == "access" for y in walk(cd, True)) and any(y[0] == "int" and y[1] & 2 for y in walk(cd, True)) for cd in conds)
+            created = False
+            if not ok:
+                # a local flag that is set only where the file is being created (a new file is always writable)
+                from .facts import int_name, is_int, kind, strip
+                flags = {y[1] for cd in conds for y in walk(cd, True) if y[0] == "var" and y[2] == "l"}
+                for v in flags:
+                    sets = []
+
+                    def vs(m, st2):
+                        if m[0] == "s":
+                            for x in walk(m[1], True):
+                                if x[0] == "asg" and x[1] == "=" and kind(strip(x[2])) == "var" and strip(x[2])[1] == v and not is_int(x[3], 0):
+                                    sets.append([a[1] for a in st2 if a[0] == "if"])
+                        return True
+                    ast_walk(f.raw.get("ast"), vs)
+                    if sets and all(any(any((y[0] == "int" and int_name(y) == "DFACC_CREATE") or (y[0] == "var" and y[1] == "new_file") for y in walk(cd, True)) for cd in cs) for cs in sets):
+                        created = True
+            if created:
+                ctx.holds("CLOSEVER", key, f.where(c[5]), "HIupdate_version is called for a file that is being created (always writable)", nontrivial=False)
+            elif ok:
+                ctx.holds("CLOSEVER", key, f.where(c[5]), "HIupdate_version is called only under a test of access & DFACC_WRITE", nontrivial=True)
+            else:
+                ctx.violated("CLOSEVER", key, f.where(c[5]), "HIupdate_version (which writes the version element) is called without a test of `access & DFACC_WRITE` (enclosing conditions: %s): "
+                             "on a file opened for reading the call fails and so does %s" % ("; ".join(render(cd)[:60] for cd in conds) or "none", f.name))
+    ctx.floor("CLOSEVER", 1, n, "(calls of HIupdate_version)")
+    return n
